@@ -259,3 +259,16 @@ package module
 //@   trusted
 //@   pure
 //@   opt ghost:nsf_bytes r
+// (nid_q / nid_of: the answer of the last NetworkDigest.NetworkID call and the digest asked)
+//@ smt all (declare-ghost nid_q Int)
+//@ smt all (declare-ghost nid_of Iface)
+//@ func (nd NetworkDigest) NetworkID() (r)
+//@   iface
+//@   trusted
+//@   pure
+//@   opt ghost:nid_q r
+//@   opt ghost:nid_of nd
+//@ func (ntd NetworkTypeDigest) NetworkDigests() (r)
+//@   iface
+//@   trusted
+//@   pure
